@@ -415,6 +415,65 @@ TREE = {
 }
 
 
+def empty_spec_cases(res, only=None):
+    """A subject or object given as an empty list is a missing subject / object: never a verdict."""
+    from pytestarch import LayeredArchitecture as LA
+    from pytestarch import LayerRule as LR
+    from pytestarch import Rule as R
+
+    from ..impl import ACCESS_METHOD, IMPORT_METHOD
+    from ..spaces import SHAPES
+
+    evs = evaluables()
+    filters = ("are_named", "are_sub_modules_of", "have_name_containing")
+    cases = []
+    for verb, imp, exc in SHAPES:
+        for pos in ("subject", "object"):
+            for flt in filters:
+                cases.append(("rule", verb, imp, exc, pos, flt))
+    for imp in (True, False):
+        for flt in filters:
+            cases.append(("rule-anything", "should_not", imp, False, "subject", flt))
+    for verb, imp, exc in SHAPES:
+        for pos in ("object-empty-list", "subject-layer-without-modules", "object-layer-without-modules"):
+            cases.append(("layer", verb, imp, exc, pos, "are_named"))
+
+    def make(c):
+        kind, verb, imp, exc, pos, flt = c
+        if kind.startswith("rule"):
+            r = R().modules_that()
+            r = getattr(r, flt)([] if pos == "subject" else "r.a")
+            r = getattr(r, verb)()
+            if kind == "rule-anything":
+                return r.import_anything() if imp else r.be_imported_by_anything()
+            r = getattr(r, IMPORT_METHOD[(imp, exc)])()
+            return getattr(r, flt)([] if pos == "object" else "r.c")
+        la = LA().layer("A").containing_modules(["r.a"]).layer("B").containing_modules(["r.c"]).layer("X")
+        subj = "X" if pos == "subject-layer-without-modules" else "A"
+        r = LR().based_on(la).layers_that().are_named(subj)
+        r = getattr(r, verb)()
+        r = getattr(r, ACCESS_METHOD[(imp, exc)])()
+        return r.are_named([] if pos == "object-empty-list" else ("X" if pos == "object-layer-without-modules" else "B"))
+
+    for c in cases:
+        if only is not None and list(c) != only:
+            continue
+        for ev in evs:
+            try:
+                got = run_rule(make(c), ev)
+            except Exception as e:  # noqa: BLE001 - rejected while building: fine
+                got = ("ERR", f"{type(e).__name__}: {e}")
+            res.transitions += 1
+            res.evaluations += 1
+            res.traces += 1
+            res.nontrivial += 1
+            res.states += 1
+            res.stats[f"empty-spec:{got[0]}"] += 1
+            if got[0] != "ERR":
+                res.violation("empty-subject-or-object-gives-verdict", {"part": "empty", "case": list(c)}, "a configuration error", list(got))
+                break
+
+
 def entry_point_cases(res):
     base = scratch_dir("entry")
     try:
@@ -501,12 +560,13 @@ def plan(tier, seed):
     shards += [{"part": "layer-enum", "len": Ll, "i": i, "n": n, "bound": f"LayerRule histories len<={Ll} (no dedup)"} for i in range(n)]
     shards.append({"part": "diagram", "len": 4 if tier == "quick" else 5, "bound": "DiagramRule histories"})
     shards.append({"part": "entry", "bound": "entry point option combinations"})
+    shards.append({"part": "empty", "bound": "empty subject / object lists"})
     gs = plan_graph_shards("A", n_max=4, chunk=16) if tier == "quick" else plan_graph_shards("A", n_max=5, chunk=64)
     for s in gs:
         shards.append(dict(s, part="unknown", bound="unknown names " + s["bound"]))
     req = ["rule:MUST_ERROR:ERR", "rule:COMPLETE:PASS", "rule:COMPLETE:FAIL", "layer:MUST_ERROR:ERR", "layer:COMPLETE:PASS",
            "layer:COMPLETE:FAIL", "diagram:MUST_ERROR:ERR", "unknown-name:ERR", "regex-nomatch:ERR", "entry-options:ERR",
-           "entry-path:ERR", "entry-valid:OK"]
+           "entry-path:ERR", "entry-valid:OK", "empty-spec:ERR"]
     return {"shards": shards, "require_nonzero": req}
 
 
@@ -557,6 +617,9 @@ def run_shard(shard, tier, seed):
                 _DIAG_DIR = None
     elif part == "entry":
         entry_point_cases(res)
+    elif part == "empty":
+        empty_spec_cases(res)
+        res.sample({"part": "empty", "rule": "Rule().modules_that().are_named([]).should().import_modules_that().are_named('r.c')", "expected": "ImproperlyConfigured"})
     elif part == "unknown":
         for ns, I in shard_graphs(shard, seed):
             res.states += 1
@@ -601,6 +664,8 @@ def _check_case(case):
         res.violations = [v for v in res.violations if v["kind"] == "regex-without-match-gives-verdict"]
     elif part == "entry":
         entry_point_cases(res)
+    elif part == "empty":
+        empty_spec_cases(res, only=case["case"])
     vs = [v for v in res.violations]
     if vs:
         return (vs[0]["kind"], vs[0]["expected"], vs[0]["observed"])
@@ -615,6 +680,8 @@ def minimise(v):
     elif c["part"] == "unknown-name":
         r = c["rule"]
         v["signature"] = f"{v['kind']}:{'anything' if r.get('anything') else r['verb'] + '/' + str(r['exc'])}:{'import' if r['imp'] else 'imported'}:{r['sk']}/{r.get('ok')}:limit{c.get('level_limit')}"
+    elif c["part"] == "empty":
+        v["signature"] = f"{v['kind']}:{c['case'][0]}:{c['case'][4]}:{c['case'][5]}"
     else:
         v["signature"] = f"{v['kind']}:{c['part']}:{c.get('entry', '')}:{sorted((c.get('options') or {}).keys())}"
     return v
